@@ -68,6 +68,8 @@ def setup(P):
         sub = param.Parameter(default=None)
         other = param.Parameter(default=None)
         t = param.String(default='t')           # never assigned on an instance: instances follow the class
+        # named objects that are not interned (floats, a large integer)
+        fsel = param.Selector(objects={'a': 1.5, 'b': 2.5, 'c': 10 ** 30, 'd': 4.5})
 
         def __init__(self, **params):
             super().__init__(**params)
@@ -361,7 +363,7 @@ def run_case(idx, rng, P, rep):
         obj.__dict__.setdefault('calls', [])
         n_calls = len(obj.calls)
         kind = rng.choice(['a', 's', 'sub.x', 'sub.y', 'sub.b.y', 'other.x', 'replace-sub', 'mutate', 'meta', 'a', 'sub.x', 'sub.x:bounds', 'update-a-s',
-                           'a-same', 'class-default-t'])
+                           'a-same', 'class-default-t', 'fsel-pop'])
         expect = []
         replaced = False
         multi = (['on_as'] if 'watch-own-method-multi' in hist else []) + (['on_private'] if 'watch-private-method' in hist else [])
@@ -374,6 +376,21 @@ def run_case(idx, rng, P, rep):
                 obj.a = obj.a
             else:
                 obj.param.update(a=obj.a, s=obj.s)
+            expect = []
+        elif kind == 'fsel-pop':
+            # an object removed from a dictionary-declared Selector (by position, or by value): its name goes with it
+            fo = obj.param.fsel.objects
+            if len(fo) < 2:
+                continue
+            if rng.random() < 0.5:
+                fo.pop(0)
+            else:
+                fo.remove(list(fo)[-1])
+            pf = obj.param.fsel
+            if list(pf.names.values()) != list(pf.objects) or list(pf.get_range().values()) != list(pf.objects):
+                viol(f'selector-inconsistent-on-{side}/fsel', f'{mech}: after removing an object from fsel on the {side}: objects {list(pf.objects)!r}, '
+                     f'names {dict(pf.names)!r}, range {dict(pf.get_range())!r}')
+            rep.count('named_objects_removed_after_copy')
             expect = []
         elif kind == 'class-default-t':
             # the class is given a new value for a parameter neither object ever assigned: both follow, in every respect
